@@ -1396,6 +1396,76 @@ func (x *c19Run) ioDownFixed(st *c19Stream, size, lenp int) {
 	x.pipeRead(&st.down, lenp, st.cst, false)
 }
 
+// REGRESSION family (ids 8-10): listener.Close lands INSIDE a client's handshake.  The client connects at the
+// socket level only (the server-side goroutine sits in Server(conn, ...) waiting for the client's first message),
+// the listener is closed, and only then the client runs its handshake.  Either the handshake fails, or the
+// session it yields must end promptly (the server closes it on the spot: the closed-test and the registration
+// are one critical section after the handshake) and nothing may stay registered in the closed listener.
+func c19CloseDuringHandshake(id int, dir string, delayMs int) c19Case {
+	t0 := time.Now()
+	c := c19Case{ID: id, Seed: 0, Backlog: 2}
+	x := &c19Run{c: &c, r: newVrand(uint64(id)), oracle: map[string]bool{}, feat: map[string]bool{}, seenSrv: map[*Session]bool{}, dir: dir}
+	path := filepath.Join(dir, fmt.Sprintf("c19_%d_%d.sock", os.Getpid(), id))
+	os.Remove(path)
+	ln, err := ListenWithBacklog(path, 2)
+	if err != nil {
+		c.Skipped = "listen failed: " + err.Error()
+		return c
+	}
+	defer os.Remove(path)
+	x.ln, x.l = ln, ln.(*listener)
+	raw, err := net.Dial("unix", path)
+	if err != nil {
+		ln.Close()
+		c.Skipped = "dial: " + err.Error()
+		return c
+	}
+	x.obs(c19Obs{K: "rawconnect"})
+	time.Sleep(time.Duration(delayMs) * time.Millisecond) // the server accepts the raw conn and waits in its handshake
+	x.startAccept()
+	time.Sleep(10 * time.Millisecond)
+	x.listenerClose(1)
+	x.say("raw connect; %d ms; lclose inside the handshake; then the client handshakes", delayMs)
+	conf := c19ClientConf(fmt.Sprintf("hs_%d_%d", os.Getpid(), id))
+	client, herr := newSession(conf, raw, true)
+	if herr != nil {
+		// the server dropped the connection / its handshake timed out: no session exists
+		x.feat["handshake-refused-after-listener-close"] = true
+	} else {
+		x.obs(c19Obs{K: "handshakedone"})
+		x.feat["handshake-completed-after-listener-close"] = true
+		ended := c19Wait(6*time.Second, func() bool { return client.IsClosed() })
+		x.l.mu.Lock()
+		reg := len(x.l.sessions)
+		x.l.mu.Unlock()
+		if !ended {
+			x.fail("close-during-handshake: a session whose handshake completed after listener.Close is still alive 6s later (sessions registered in the closed listener: %d): the listener's reference on it is never released", reg)
+			// end it by hand: the server side is reachable only through the listener's map
+			x.l.mu.Lock()
+			for s := range x.l.sessions {
+				s.Close()
+			}
+			x.l.mu.Unlock()
+		}
+		x.obs(c19Obs{K: "final", F: []bool{ended}})
+		client.Close()
+	}
+	x.l.mu.Lock()
+	reg := len(x.l.sessions)
+	x.l.mu.Unlock()
+	if reg != 0 {
+		x.fail("close-during-handshake: %d session(s) registered in a closed listener", reg)
+	}
+	for k := range x.oracle {
+		c.Oracle = append(c.Oracle, k)
+	}
+	for k := range x.feat {
+		c.Feat = append(c.Feat, k)
+	}
+	c.Ms = time.Since(t0).Milliseconds()
+	return c
+}
+
 // FULL-DUPLEX family: a conn obtained through Listen/Accept and the client's stream used as net.Conn, each
 // READ by one goroutine while ANOTHER goroutine WRITES it.  Both directions carry a self-describing byte stream
 // (byte = f(direction, offset)); read sizes are exact fits of the write / slice size (reads that end exactly at
@@ -1565,7 +1635,18 @@ func TestVerif_C19(t *testing.T) {
 	emit(c19ConcurrentClose(5, dir, 2, false))
 	emit(c19ConcurrentClose(6, dir, 3, false))
 	emit(c19ConcurrentClose(7, dir, 3, true))
-	var next int64 = 7
+	{
+		var wgh sync.WaitGroup
+		for i, ms := range []int{50, 150, 300} {
+			wgh.Add(1)
+			go func(i, ms int) {
+				defer wgh.Done()
+				emit(c19CloseDuringHandshake(8+i, dir, ms))
+			}(i, ms)
+		}
+		wgh.Wait()
+	}
+	var next int64 = 10
 	var wg sync.WaitGroup
 	for w := 0; w < par; w++ {
 		wg.Add(1)
@@ -1573,7 +1654,7 @@ func TestVerif_C19(t *testing.T) {
 			defer wg.Done()
 			for {
 				id := int(atomic.AddInt64(&next, 1))
-				if id >= n+8 {
+				if id >= n+11 {
 					return
 				}
 				emit(c19Scenario(id, seed*1000003+uint64(id), dir))
@@ -1597,7 +1678,7 @@ func TestVerif_C19(t *testing.T) {
 	}
 	// stress: streams racing with listener.Close
 	nstress := venvInt("VERIF_STRESS", 3*n/2)
-	var sid int64 = int64(n + 8)
+	var sid int64 = int64(n + 11)
 	var wg2 sync.WaitGroup
 	for w := 0; w < par; w++ {
 		wg2.Add(1)
@@ -1605,7 +1686,7 @@ func TestVerif_C19(t *testing.T) {
 			defer wg2.Done()
 			for {
 				k := int(atomic.AddInt64(&sid, 1)) - 1
-				if k >= n+8+nstress {
+				if k >= n+11+nstress {
 					return
 				}
 				emit(c19Stress(k, seed*7919+uint64(k), dir, true))
@@ -1617,6 +1698,6 @@ func TestVerif_C19(t *testing.T) {
 	// (counter 0, wg.Wait returning) while newStreamWrapper does wg.Add(1) for a stream arriving at that moment
 	nreuse := venvInt("VERIF_REUSE", n)
 	for k := 0; k < nreuse; k++ {
-		emit(c19Stress(n+8+nstress+k, seed*104729+uint64(k), dir, false))
+		emit(c19Stress(n+11+nstress+k, seed*104729+uint64(k), dir, false))
 	}
 }
